@@ -54,13 +54,17 @@ def ref_extrema(sig, fs, f_range, boundary=0, first_extrema='peak', filter_kwarg
     ok = n_rise > 0 and n_decay > 0
     pre_p, pre_t = list(peaks), list(troughs)
     if first_extrema in ('peak', 'trough'):
-        if len(peaks) < 2 or len(troughs) < 2:
+        # defined whenever there is something to trim against: a single peak or trough is enough (the sequence must still start
+        # with the requested kind and have equal counts); only an empty list leaves the outcome open (the implementation raises)
+        first, other = (peaks, troughs) if first_extrema == 'peak' else (troughs, peaks)
+        if not first or not other:
             ok = False
         else:
-            first, other = (peaks, troughs) if first_extrema == 'peak' else (troughs, peaks)
             if other[0] < first[0]:
                 other.pop(0)
-            if first[-1] > other[-1]:
+            if not other:
+                ok = False
+            elif first[-1] > other[-1]:
                 first.pop()
     return {'peaks': peaks, 'troughs': troughs, 'n_rise': n_rise, 'n_decay': n_decay, 'ok': ok,
             'pre_peaks': pre_p, 'pre_troughs': pre_t, 'filt': f, 'padn': padn}
